@@ -45,6 +45,12 @@ def main():
     import csv, pprint, itertools, ast  # noqa: F401,E401
     import numpy, sympy, scipy.optimize, scipy.integrate, scipy.stats, pandas, prettytable  # noqa: F401,E401
     import psutil, pympler.asizeof, numdifftools, astropy.constants, astropy.units, mpmath  # noqa: F401,E401
+    try:
+        import matplotlib
+        matplotlib.use('Agg')
+        import matplotlib.pyplot, matplotlib.cm  # noqa: F401,E401
+    except Exception:
+        pass
     if warm:
         warmup()
     if helper:
